@@ -39,6 +39,7 @@ def runX (at_ : Nat) (k : Kind) (c : Chan LS) (x : Xfer) : Chan LS × String :=
     match upload (dpeer at_ k) c i j t 100000 with
     | (c', .ok d) => (c', s!"ok {toHex d}")
     | (c', .error e) => (c', showErr e)
+  | .upInto i j sizes => runInto (dpeer at_ k) c i j sizes
 
 def runAllX (at_ : Nat) (k : Kind) : Chan LS → List Xfer → List String → List String → Chan LS × List String × List String
   | c, [], acc, st => (c, acc, st)
